@@ -59,6 +59,19 @@ Definition spec_classes : list (str * (N -> bool)) :=
 
 Definition class_pred (name : str) : option (N -> bool) := assoc_str name spec_classes.
 
+(* a backslash at the very end of a pattern string quotes nothing *)
+Fixpoint dangling_bslash (s : str) : bool :=
+  match s with
+  | [] => false
+  | c :: r =>
+      if N.eqb c c_bslash then
+        match r with
+        | [] => true
+        | _ :: r' => dangling_bslash r'
+        end
+      else dangling_bslash r
+  end.
+
 (* ------------------------------------------------------------------ *)
 (* reading the notation                                                *)
 
@@ -470,20 +483,9 @@ Definition closed_complement (a : atom) : bool :=
 
 Definition closed_complements (p : ast) : bool := forallb closed_complement p.
 
-(* Domain of the theorems: inside a complemented bracket expression no
-   member is "multi-character" in the implementation's sense (a collating
-   symbol / equivalence class longer than one byte).  Outside this domain
-   lie F9 (one non-ASCII character) and the broken shape "[^]". *)
-Definition plain_complement (a : atom) : bool :=
-  match a with
-  | ABracket b => negb (b_complement b && existsb bitem_multi (b_items b))
-  | _ => true
-  end.
-
-Definition plain_complements (p : ast) : bool := forallb plain_complement p.
-
-(* no collating element of two or more bytes anywhere: every element of the
-   pattern then consumes exactly one character *)
+(* no collating element of two or more characters anywhere: every element of
+   the pattern then consumes exactly one character (outside this domain the
+   prefix forms are refuted: F31) *)
 Definition single_width_atom (a : atom) : bool :=
   match a with
   | ABracket b => negb (existsb bitem_multi (b_items b))
@@ -526,5 +528,5 @@ Definition glob_rx (r : rx) : bool := forallb glob_node r.
 
 (* the patterns of an item, with their parsed forms *)
 Definition item_parsed (pats : list (list pchar)) (asts : list ast) : Prop :=
-  Forall2 (fun p a => parse_pattern p = Some a /\ plain_complements a = true) pats asts.
+  Forall2 (fun p a => parse_pattern p = Some a /\ closed_complements a = true) pats asts.
 
